@@ -302,6 +302,20 @@ func genPlan(seed int64, pair string, cl cell, idx int, clean bool) *e2ePlan {
 			}
 			p.Faults = append(p.Faults, f)
 		}
+		// With a bounded pipe, faults in both directions can park both readers in sendAlert behind their own
+		// side's writer, which is blocked on the full pipe that the other reader no longer drains: a property of
+		// any blocking transport, not of the record layer. Such plans run over the unbounded pipe.
+		ab, ba := false, false
+		for _, f := range p.Faults {
+			if f.Dir == "AB" {
+				ab = true
+			} else {
+				ba = true
+			}
+		}
+		if ab && ba {
+			p.Capacity = 0
+		}
 	}
 	return p
 }
